@@ -229,6 +229,8 @@ class Schedules(core.Layer):
                 acc.classes['unordered-map-in-use'] += 1
             if acc is not None and calls and len(calls) < 2:
                 acc.classes['pool-not-used-by-every-pass'] += 1
+            if acc is not None and any(not c.get('fits', True) for c in calls):
+                acc.classes['task-count-differs-from-schedule'] += 1
         elif kind == 'one-cpu':
             files, calls, err = execute(world, None, None, cpus=1)
             ntasks = sum(c['n'] for c in calls)
@@ -279,6 +281,89 @@ class Schedules(core.Layer):
                                                    for k in ('fifo', 'perturbed', 'completion', 'repeat', 'one-cpu', 'hashseed', 'cli')})
 
 
+class CliWorkers(core.Layer):
+    """the real entry point with several --cpus values on fixed worlds (no pre-scan, no pool model): every run must equal the -c 1 run.
+    These are sampled OS schedules; they bind the model to the real pool and catch dependence on the requested worker count even
+    when a change alters how the work is cut into tasks."""
+
+    def __init__(self, name, cpus, optional=False):
+        self.name, self.optional, self.cpus = name, optional, cpus
+        self.worlds = [candidate_worlds(6)[0], candidate_worlds(7)[3], decoy_world()]
+        self.items = [(wi, k, mode) for wi in range(len(self.worlds)) for k in cpus for mode in (('all',) if wi else ('all', 'joined'))]
+        self.bounds = dict(worlds=len(self.worlds), cpus=list(cpus), baseline='-c 1')
+        self.rule = '%d real CLI runs, each compared with the -c 1 run of the same world and mode' % len(self.items)
+        self.base = {}
+
+    def prepare(self):
+        for wi, w in enumerate(self.worlds):
+            for mode in ('all', 'joined'):
+                rc, err, raw = driver.run_cli(w, mode, cpus=1)
+                self.base[(wi, mode)] = (rc, {k: driver.strip_echo(v) for k, v in raw.items()}, err[-300:])
+
+    def nblocks(self):
+        return len(self.items)
+
+    def run_block(self, b, acc):
+        wi, k, mode = self.items[b]
+        acc.seq += 1
+        found = self.run_item(self.worlds[wi], self.base[(wi, mode)], k, mode, acc)
+        case = dict(world=worlds.jsonable(self.worlds[wi]), cpus=k, mode=mode)
+        for f in found:
+            acc.viol(f[0], case, f[1], f[2], f[3])
+        acc.sample(lambda: dict(world='%d queries' % len(self.worlds[wi]['queries']), cpus=k, mode=mode))
+
+    def run_item(self, world, base, k, mode, acc):
+        rc, err, raw = driver.run_cli(world, mode, cpus=k)
+        files = {x: driver.strip_echo(v) for x, v in raw.items()}
+        found = []
+        if base[0] != 0:
+            found.append(('execution-aborted', '-c 1: exit %s %s' % (base[0], base[2]), 'cli', {'kind': 'cli'}))
+        elif rc != 0:
+            found.append(('execution-aborted', '-c %s: exit %s %s' % (k, rc, err[-300:]), 'cli', {'kind': 'cli'}))
+        elif files != base[1]:
+            diff = [x for x in sorted(set(files) | set(base[1])) if files.get(x) != base[1].get(x)]
+            found.append(('output-differs-between-cpus-values', 'mode %s: -c %s vs -c 1: files %s differ (%d vs %d lines in %s)' % (
+                mode, k, diff, len(files.get(diff[0], [])), len(base[1].get(diff[0], [])), diff[0]), 'cli', {'kind': 'cli'}))
+        if acc is not None:
+            acc.evals += 1
+            acc.transitions += 1
+            acc.state(('cli', k, mode, len(world['queries'])))
+            acc.nontriv(('cli', k, mode, len(world['queries'])))
+            acc.classes['executions:cli'] += 1
+        return found
+
+    def replay(self, case):
+        w = case['world']
+        rc, err, raw = driver.run_cli(w, case['mode'], cpus=1)
+        return self.run_item(w, (rc, {k: driver.strip_echo(v) for k, v in raw.items()}, err[-300:]), case['cpus'], case['mode'], None)
+
+
+def decoy_world():
+    """a second-pass fragment whose true location scores BELOW three decoys in the coarse seeding step (the decoys sit on another
+    reference, their labels about 900 bp off; the true copy lacks a quarter of its labels and is shifted by half a seeding bin) but far
+    above them in the fine alignment: which candidates are tried depends on whether the top seeds are taken over all references or
+    reference by reference"""
+    refs = e2e.std_refs()
+    a, b = refs[0], refs[1]
+    frag = worlds.window_query(b, 30, 14, False)[0][2]
+    long_part = worlds.window_query(b, 5, 20, False)[0][2]
+    q = worlds.apply_edit(list(long_part), ('chimera', list(frag), 33000.0))
+    # reference A': A plus three decoy copies of the fragment (labels alternately +900 / -900 bp off) appended behind A's labels
+    pos = list(a[2])
+    x = pos[-1] + 40000.0
+    for d in range(3):
+        for i, p in enumerate(frag):
+            pos.append(round(x + p + (900.0 if (i + d) % 2 else -900.0), 1))
+        x = pos[-1] + 40000.0
+    a2 = (a[0], pos[-1] + 14000.0, pos)
+    # reference B': the true copy keeps 3 of every 4 labels and is shifted by 700 bp relative to the seeding bins
+    bp = list(b[2])
+    lo, hi = b[2][30], b[2][43]
+    kept = [p for i, p in enumerate(bp) if not (lo <= p <= hi and (i - 30) % 4 == 1)]
+    b2 = (b[0], b[1], [round(p + (700.0 if p >= lo else 0.0), 1) for p in kept])
+    return dict(refs=[a2, b2], queries=[worlds.as_map(30, q), worlds.as_map(4, worlds.window_query(a, 12, 16, True)[0][2])])
+
+
 def base_digest(base):
     return digest(base)
 
@@ -301,8 +386,9 @@ def run_fresh(world, s1, s2, hashseed, mode='all'):
 def layers(tier, seed):
     tie = Schedules('ties:N4,W2', 4, 2, 1, seed, False, (2,), equal_flanks=True, fifo=False)
     if tier == 'quick':
-        return [Schedules('N5,W3', 5, 3, 1, seed, False, (1, 3, 16)), tie]
-    return [Schedules('N5,W3', 5, 3, 1, seed, True, (1, 2, 3, 5, 8, 16)), tie, Schedules('N6,W4', 6, 4, 1, seed, False, (2, 3)),
+        return [Schedules('N5,W3', 5, 3, 1, seed, False, (1, 3, 16)), tie, CliWorkers('cli', (2, 3, 4, 16))]
+    return [Schedules('N5,W3', 5, 3, 1, seed, True, (1, 2, 3, 5, 8, 16)), tie, CliWorkers('cli', (2, 3, 4, 5, 6, 7, 8, 12, 16)),
+            Schedules('N6,W4', 6, 4, 1, seed, False, (2, 3)),
             Schedules('N7,W4', 7, 4, 1, seed, False, (3,), optional=True)]
 
 
